@@ -479,6 +479,15 @@ def m_C09(v):
     """each participant settles exactly once for what the views reported"""
     out = []
     lp = v.deploy["lp"] if v.deploy else 2
+    # a participant with surviving tickets who has not settled yet must be able to: a claim that the contract itself
+    # tried to execute and that broke on a transfer (the VM's "insufficient funds") means somebody else took the value
+    for i, k in enumerate(v.kind):
+        if k == "call" and v.call[i]["ep"] == "claim" and v.R[i]["st"] == "vm" and "insufficient" in v.R[i].get("msg", "").lower():
+            pd = v.prev_dump(i)
+            d = pd[1].get(v.call[i]["caller"]) if pd else None
+            if d and d.get("range", "none") != "none" and d.get("cl") == "0":
+                out.append((i, f"C09 the claim of participant {v.call[i]['caller']} (range {d['range']}, not settled) failed on a transfer: "
+                               f"{v.R[i].get('msg', '')[:60]}"))
     if v.variant in gen.VESTED:
         # vested variants: whatever the number of claim calls, a participant never receives more than
         # tokens-per-ticket x the winning tickets the views reported when he settled
